@@ -250,12 +250,17 @@ pub fn replace_lifetime(ty: &mut Type) {
                 .flat_map(|ab| ab.args.iter_mut())
                 .for_each(|arg| {
                     if let GenericArgument::Lifetime(lt) = arg {
-                        *lt = Lifetime::new("'s", lt.span());
+                        // `'static` never names the source: `Cow<'static, str>` stays as written
+                        if lt.ident != "static" {
+                            *lt = Lifetime::new("'s", lt.span());
+                        }
                     }
                 });
         }
         Type::Reference(r) => {
-            let span = match r.lifetime.take() {
+            let span = match &r.lifetime {
+                // `&'static str` stays as written
+                Some(lt) if lt.ident == "static" => return,
                 Some(lt) => lt.span(),
                 None => Span::call_site(),
             };
@@ -266,7 +271,9 @@ pub fn replace_lifetime(ty: &mut Type) {
         Type::TraitObject(object) => {
             for bound in object.bounds.iter_mut() {
                 if let syn::TypeParamBound::Lifetime(lt) = bound {
-                    *lt = Lifetime::new("'s", lt.span());
+                    if lt.ident != "static" {
+                        *lt = Lifetime::new("'s", lt.span());
+                    }
                 }
             }
         }
